@@ -718,13 +718,37 @@ func TestVerifC18API(t *testing.T) {
 		})
 
 		// ---- oracle
+		// Everybody is done: nothing may be left under the lock. A key left by a member whose Lock()
+		// failed (503 / observer error) is the known finding of part (a): a timed-out acquisition
+		// does not leave the mutex free, every later request then answers 503 after 10 s.
+		trouble := obsErr
 		for _, r := range all {
-			if r.status >= 500 {
-				rt.Fatalf("VF-INCONCLUSIVE %s answered %d: %s\n%s", r.req, r.status, r.body, history())
+			if r.status >= 500 && trouble == "" {
+				trouble = fmt.Sprintf("%s answered %d: %s", r.req, r.status, strings.TrimSpace(r.body))
 			}
 		}
-		if obsErr != "" {
-			rt.Fatalf("VF-INCONCLUSIVE %s", obsErr)
+		lockKeys, lerr := pcls.GetPrefix(lockKey + "/")
+		if lerr != nil {
+			rt.Fatalf("VF-INCONCLUSIVE %v", lerr)
+		}
+		if len(lockKeys) > 0 {
+			var ks []string
+			for k := range lockKeys {
+				ks = append(ks, k)
+			}
+			sort.Strings(ks)
+			pcls.DeletePrefix(lockKey + "/") // so that the following cases are not blocked
+			if trouble != "" {
+				if vf.Violation(rt, "lock-key-left-after-timed-out-Lock", "all clients and the observer are done, a Lock() had failed (%s) and etcd still holds %v under %s\n%s",
+					trouble, ks, lockKey, history()) {
+					return
+				}
+			}
+			vf.Violation(rt, "lock-key-left-after-Unlock", "all clients and the observer are done, no request failed, but etcd still holds %v under %s\n%s", ks, lockKey, history())
+			return
+		}
+		if trouble != "" {
+			rt.Fatalf("VF-INCONCLUSIVE %s\n%s", trouble, history())
 		}
 		if obsViol != "" {
 			vf.Violation(rt, "mutation-inside-another-members-critical-section", "%s\n%s", obsViol, history())
